@@ -200,7 +200,7 @@ def findDir (done : List RDir) (pos : Nat) : Option RDir := done.find? (·.pos =
 def toBDir (d : Src) (done : List RDir) (id : Nat) (x : Dir) : Build.BDir :=
   match findDir done x.id with
   | some r =>
-    { kind := r.kind, id := id, src := r.pos + 1, keyword := r.keyword, named := r.params.named,
+    { kind := x.kind, id := id, src := r.pos + 1, keyword := r.keyword, named := r.params.named,
       unnamed := r.params.unnamed, annot := r.annot, body := r.body.map fun (b, e1) => d.slice b e1 }
   | none => { kind := x.kind, id := id, src := x.id + 1 }
 
